@@ -13,6 +13,7 @@ import QuantityModel.Proofs.Term
 import QuantityModel.Proofs.TermNormal
 import QuantityModel.Proofs.RegistryTerm
 import QuantityModel.Proofs.TermKeep
+import QuantityModel.Proofs.RefUnique
 namespace QM.Props.C07
 open QM
 
@@ -221,6 +222,58 @@ theorem eq_complete_FALSE_same_key_order :
     termEq d5env (mkTerm d5env [(.atom 0, 1), (.atom 1, -1)])
                  (mkTerm d5env [(.atom 1, -1), (.atom 0, 1)]) = false := by
   refine ⟨fun ν => by simp [evalElem, mul_comm], by decide +kernel⟩
+
+/-- In every registry reachable by declarations — valid or rejected, in any
+order — two distinct base units are never convertible into each other: a base
+unit that carries a scale is the reference unit of its type
+(Proofs/RefUnique.lean).  This was a hypothesis of the equivalence above. -/
+theorem distinct_base_units_not_convertible_reachable (s : RegState) (h : Reachable s) :
+    BaseNoConv s.unitEnv :=
+  reachable_baseNoConv h
+
+/-- **The equivalence without any hypothesis on the registry**: in every
+registry reachable by well-formed declarations, two terms over units that have
+a scale (units of types with reference unit, defined by scaling it) are equal
+exactly when they denote the same rational factor and the same exponent for
+every base unit.  (`ScaledAtoms` excludes exactly the units known finding D5
+is about.) -/
+theorem eq_iff_same_factor_and_exponents_reachable (s : RegState) (h : ReachableWF s)
+    (t₁ t₂ : Items) (h₁ : ScaledAtoms s.unitEnv t₁) (h₂ : ScaledAtoms s.unitEnv t₂)
+    (c₁ : Clean t₁) (c₂ : Clean t₂) :
+    termEq s.unitEnv t₁ t₂ = true ↔
+      (numVal (expanded s.unitEnv t₁) = numVal (expanded s.unitEnv t₂) ∧
+       ∀ a, expOf a (expanded s.unitEnv t₁) = expOf a (expanded s.unitEnv t₂)) :=
+  termEq_iff_reachable h t₁ t₂ h₁ h₂ c₁ c₂
+
+/-! Non-vacuity of the reachable form: Length {m, km = 1000 m}, Duration {s},
+Velocity = Length / Duration {m/s}, declared through the model of the class
+statement and of `new_unit`; `km/s` and `1000 · m/s` meet the hypotheses. -/
+
+def exDecls : List Decl := [
+  .cls { name := "Length", defineAs := none, refUnitSymbol := some "m", quantum := none },
+  .cls { name := "Duration", defineAs := none, refUnitSymbol := some "s", quantum := none },
+  .newUnit 1 (some "km") (.qty 1000 0),
+  .cls { name := "Velocity", defineAs := some [(.atom 1, 1), (.atom 2, -1)],
+         refUnitSymbol := none, quantum := none }]
+
+def exReg : RegState := exDecls.foldl RegState.applyDecl RegState.init
+
+theorem exReg_reachable : ReachableWF exReg := by
+  have h0 := ReachableWF.init
+  have h1 := ReachableWF.step _ (exDecls[0]) h0 (by simp [exDecls, Decl.WF])
+  have h2 := ReachableWF.step _ (exDecls[1]) h1 (by simp [exDecls, Decl.WF])
+  have h3 := ReachableWF.step _ (exDecls[2]) h2 (by
+    show (1000 : ℚ) ≠ 0 ∧ 0 < _
+    exact ⟨by norm_num, by decide +kernel⟩)
+  have h4 := ReachableWF.step _ (exDecls[3]) h3 (by simp [exDecls, Decl.WF])
+  exact h4
+
+example : (exReg.units.map (·.symbol)) = ["m", "s", "km", "m/s"] := by decide +kernel
+example : ScaledAtoms exReg.unitEnv [(.atom 2, 1), (.atom 1, -1)] ∧
+    ScaledAtoms exReg.unitEnv [(.num 1000, 1), (.atom 3, 1)] := by
+  unfold ScaledAtoms; decide +kernel
+example : termEq exReg.unitEnv [(.atom 2, 1), (.atom 1, -1)] [(.num 1000, 1), (.atom 3, 1)] = true := by
+  decide +kernel
 
 /-! ### Non-vacuity: an environment like Length {m, km} / Duration {s} / Velocity {m/s}
 with an admissible valuation, and a reduction that converts, merges and folds. -/
